@@ -229,6 +229,8 @@ func cmdCheck(args []string) int {
 	var samples []interface{}
 	var newBase Baseline
 	newBase.Property = *prop
+	deadReturns := map[string]int{}
+	retCount := map[string]int{}
 
 	violate := func(name, why, suffix string, o *Obl, vc *VC) {
 		rp := filepath.Join(replayDir, fmt.Sprintf("%s-%s.json", *prop, sanitizeFile(name)))
@@ -257,6 +259,14 @@ func cmdCheck(args []string) int {
 				violate(vc.name+"/contract", s, "no-failing-input-found", nil, vc)
 			}
 		}
+		nRet := 0
+		for _, o := range vc.obls {
+			if strings.Contains(o.Name, "/cover/return-reachable") {
+				nRet++
+			}
+		}
+		defer func(vc *VC, nRet int) {}(vc, nRet)
+		retCount[vc.name] = nRet
 		for _, o := range vc.obls {
 			seen[o.Name] = true
 			solverTime += o.TimeS
@@ -272,8 +282,11 @@ func cmdCheck(args []string) int {
 					r.Status = "cover-reached"
 					newBase.Covers = append(newBase.Covers, o.Name)
 				case "unsat":
-					r.Status = "VACUOUS"
-					if baseCover[o.Name] || base == nil {
+					r.Status = "unreachable"
+					if strings.Contains(o.Name, "/cover/return-reachable") {
+						deadReturns[vc.name]++
+					} else if baseCover[o.Name] || base == nil {
+						r.Status = "VACUOUS"
 						violate(o.Name, "vacuity: this point/precondition became unreachable, every proof below it is void", "no-failing-input-found", o, vc)
 					}
 				default:
@@ -334,6 +347,11 @@ func cmdCheck(args []string) int {
 				fmt.Printf("UNDECIDED-NEW %s (%s)\n", o.Name, o.Result)
 			}
 			reports = append(reports, r)
+		}
+	}
+	for fn, n := range retCount {
+		if n > 0 && deadReturns[fn] == n {
+			violate(fn+"/cover/all-returns-unreachable", "vacuity: no return of the function is reachable under its contract and invariants; every proof in it is void", "no-failing-input-found", nil, nil)
 		}
 	}
 	for _, t := range tables {
